@@ -10,7 +10,9 @@ running thread at decision number n (to the off-th other runnable thread); ``{"m
 "seed": s, "p": 0.1}`` switches with probability p at every decision (seeded, reproducible).
 The default (no entry) is run-to-completion in task order.
 """
+import os
 import random
+import sys
 import threading
 
 from . import interpose
@@ -37,6 +39,7 @@ class Policy:
         self.rng = random.Random(spec.get('seed', 0))
         self.p = spec.get('p', 0.1)
         self.first = spec.get('first', 0)
+        self.lines = bool(spec.get('lines'))     # also decide at every executed line of library code
 
     def choose(self, n, label, runnable, me):
         others = [r for r in runnable if r != me]
@@ -137,11 +140,14 @@ class Sched:
             me = 't%d' % i
             with self.cv:
                 self._wait_turn(me)
+            if self.policy.lines:
+                sys.settrace(_line_tracer)
             try:
                 results[i] = ('ok', fn())
             except BaseException as e:        # noqa: B902 - reported to the caller
                 results[i] = ('exc', e)
             finally:
+                sys.settrace(None)
                 with self.cv:
                     self.state[me] = 'done'
                     self.blocked.pop(me, None)
@@ -213,6 +219,35 @@ class SLock:
     def __exit__(self, *a):
         self.release()
         return False
+
+
+_LIB_DIR = None
+
+
+def _lib_dir():
+    global _LIB_DIR
+    if _LIB_DIR is None:
+        import file_builder
+        _LIB_DIR = os.path.dirname(os.path.abspath(file_builder.__file__)) + os.sep
+    return _LIB_DIR
+
+
+def _line_tracer(frame, event, arg):
+    """sys.settrace hook of task threads in line-granularity mode: every executed line of library
+    code is a scheduling point (pure-Python stretches are no longer atomic)."""
+    if event != 'call':
+        return None
+    if not frame.f_code.co_filename.startswith(_lib_dir()):
+        return None
+    return _local_tracer
+
+
+def _local_tracer(frame, event, arg):
+    if event == 'line':
+        s = ACTIVE
+        if s is not None:
+            s.yield_point('line')
+    return _local_tracer
 
 
 def hook(label, args):
